@@ -69,6 +69,16 @@ def family_codec(c, thorough, gen):
     cases = [dict(k="dec", entry="plain", inp=g["inp"]) for g in rng.sample(pool, min(len(pool), 350 if not thorough else 1500))]
     wants = [(g["m"], g["w"]) for g in pool if g["g"]]
     cases += [dict(k="rt", m=m, mand=w["mand"], opt=w["opt"], via="plain") for m, w in rng.sample(wants, min(len(wants), 150 if not thorough else 500))]
+    # the refusal paths as well (foreign discriminators, unknown message types, too-short, nil): an error value, a logger call or
+    # a counter on a path that every goroutine takes at once is shared state like any other
+    for b0 in range(0, 256, 5):
+        if b0 in (0x7E, 0x2E): continue
+        cases.append(dict(k="dec", entry="plain", inp=[b0, (b0 * 7) % 256, 0x41, 0x00, 0x01]))
+    for mt in (0x00, 0x40, 0x69, 0xC0, 0xFF):
+        cases.append(dict(k="dec", entry="plain", inp=[0x7E, 0x00, mt, 0x00])); cases.append(dict(k="dec", entry="plain", inp=[0x2E, 0x01, 0x01, mt, 0x00]))
+    for inp in ([], [0x7E], [0x2E, 0x00], [0x7E, 0x00]):
+        cases.append(dict(k="dec", entry="plain", inp=inp))
+    cases.append(dict(k="dec", entry="plain"))
     rng.shuffle(cases)
     cp = os.path.join(c.scratch, "c19-codec-cases.ndjson")
     with open(cp, "w") as f:
